@@ -408,12 +408,15 @@ def real_constraints(program, built, block):
     """block.constraints in order: ContinuousConstraints mapped back to their description."""
     from sweetpea._internal.constraint import ContinuousConstraint
     fm = fmap(program)
-    ids = {id(obj): cid for cid, obj in built.constraints.items()}
+    # a block works on shallow copies of the constraint objects it is given (/repo 88b3d0f): the
+    # constraint function object is shared by the copy and identifies the description
+    ids = {id(obj.constraint_function): cid for cid, obj in built.constraints.items()
+           if isinstance(obj, ContinuousConstraint)}
     cdesc = {c["id"]: c for c in program.get("constraints", [])}
     out = []
     for c in block.constraints:
         if isinstance(c, ContinuousConstraint):
-            d = cdesc[ids[id(c)]]
+            d = cdesc[ids[id(c.constraint_function)]]
             out.append([Atom("cc"), [fm[f]["name"] for f in d["factors"]], w_pred(d["pred"])])
         else:
             out.append([Atom("other")])
